@@ -54,7 +54,7 @@ Print Assumptions C04_side_conditions_hold.
 
 (* non-vacuity: a two-thread history that is accepted, one that oversubscribes, one with an illegal transition *)
 Definition sx2 : static :=
-  {| s_threads := [{| ti_tid := 7; ti_pid := 1; ti_loom := 0 |}; {| ti_tid := 8; ti_pid := 1; ti_loom := 0 |}];
+  {| s_threads := [{| ti_tid := 7; ti_pid := 1; ti_loom := 0; ti_appid := 1; ti_rank := -1 |}; {| ti_tid := 8; ti_pid := 1; ti_loom := 0; ti_appid := 1; ti_rank := -1 |}];
      s_cpus := [{| ci_virtual := false; ci_loom := 0; ci_index := 0 |}; {| ci_virtual := true; ci_loom := 0; ci_index := -1 |}];
      s_chans := []; s_lint := false |}.
 Example C04_ex_accept :
